@@ -3,6 +3,7 @@ package main
 import (
 	"io/ioutil"
 	"os"
+	"strings"
 	"time"
 
 	"github.com/dgraph-io/badger/v2"
@@ -51,6 +52,22 @@ func badgerOpts(dir string) badger.Options {
 		WithNumLevelZeroTables(1).WithNumLevelZeroTablesStall(2)
 }
 
+// retryOpen opens the persistent driver.  The directory lock is a flock: when this process has
+// just closed the database while another goroutine was between fork and exec of a child process
+// (the kill scenarios start children), the forked copy of the descriptor keeps the lock for a
+// moment, and an immediate re-open is refused.  That is an artefact of this harness, so the open
+// is retried for a short while on exactly that error.
+func retryOpen[T any](open func(badger.Options) (T, error), opts badger.Options) (T, error) {
+	deadline := time.Now().Add(5 * time.Second)
+	for {
+		s, err := open(opts)
+		if err == nil || !strings.Contains(err.Error(), "Cannot acquire directory lock") || time.Now().After(deadline) {
+			return s, err
+		}
+		time.Sleep(20 * time.Millisecond)
+	}
+}
+
 func newStore(drv int) *openStore {
 	if drv == drvMem {
 		return &openStore{Store: memory.New(), drv: drv}
@@ -59,7 +76,7 @@ func newStore(drv int) *openStore {
 	if err != nil {
 		fatal("%v", err)
 	}
-	s, err := badgerstore.Open(badgerOpts(dir))
+	s, err := retryOpen(badgerstore.Open, badgerOpts(dir))
 	if err != nil {
 		fatal("badger open: %v", err)
 	}
@@ -74,7 +91,7 @@ func (o *openStore) Reopen() {
 	if err := o.Store.Close(); err != nil {
 		fatal("badger close: %v", err)
 	}
-	s, err := badgerstore.Open(badgerOpts(o.dir))
+	s, err := retryOpen(badgerstore.Open, badgerOpts(o.dir))
 	if err != nil {
 		fatal("badger reopen: %v", err)
 	}
